@@ -41,7 +41,7 @@ DIRS = ['+SKIP', '-SKIP', '+REQUIRES(module:os)', '-REQUIRES(module:os)',
         '+REQUIRES(module:os, %s)' % UNMET_A, '+REQUIRES(%s, module:os)' % UNMET_A, '-REQUIRES(module:os, %s)' % UNMET_A,
         '+REQUIRES(%s, %s)' % (UNMET_A, UNMET_B), '-REQUIRES(module:os, %s, %s)' % (UNMET_A, UNMET_B)]
 FORMS = ['one', 'multi', 'multi_first', 'compound', 'compound_last', 'deco', 'want', 'badwant', 'strlit', 'wsprobe',
-         'decoclass', 'decoclass_last', 'decoasync']
+         'decoclass', 'decoclass_last', 'decoasync', 'compound_comment', 'multi_comment']
 
 EX_ALPHABET = ([('block', d) for d in DIRS[:10] + [DIRS[10]]] +
                [('stmt', 'one', None), ('stmt', 'one', '+SKIP'), ('stmt', 'one', '-SKIP'),
@@ -130,6 +130,12 @@ def stmt_lines(i, form, inline):
         return ['>>> for _k in range(1):', '...     quiet(%d)%s' % (i, c)]
     if form == 'deco':
         return ['>>> @deco(%d)%s' % (i, c), '... def g%d(): pass' % i]
+    if form == 'compound_comment':
+        # a comment-only line inside the statement that carries the inline directive
+        return ['>>> for _k in range(1):', '...     # a comment inside the body', '...     quiet(%d)%s' % (i, c)]
+    if form == 'multi_comment':
+        return ['>>> z%d = [  # a trailing comment on the first line' % i, '...     # a comment-only line',
+                '...     quiet(%d)]%s' % (i, c)]
     if form == 'decoclass':
         return ['>>> @deco(%d)%s' % (i, c), '... class G%d:' % i, '...     pass']
     if form == 'decoclass_last':
